@@ -87,6 +87,23 @@ def gen_cases(rng, tier):
         n = rng.choice([16, 32, 64]) if name.startswith('float') else 8 * rng.randrange(1, 9) if name not in ('uint', 'int', 'bin', 'hex', 'oct') else rng.randrange(1, 70) * {'hex': 4, 'oct': 3}.get(name, 1)
         yield {'op': 'pattern', 'name': name, 'bits': rand_bits(rng, n), 'cls': rng.choice(CLASSES)}
 
+    # property assignment on a mutable object, an in-place edit of that object, then the same (dtype, length, value) through every creation route:
+    # the routes must still agree with the canonical encoding (a setter that adopts a shared / cached store shows up here)
+    EDITS = ['invert', 'append', 'del', 'set', 'reverse', 'ilshift', 'setitem', 'clear']
+    for _ in range(N // 6):
+        r = rng.random()
+        if r < 0.3:
+            name = rng.choice(INTS); n = 8 * rng.choice([1, 2, 4, 8]); v = boundary(rng, name, n)
+            if not name.startswith('int') and v < 0: v = -v
+            spec = {'name': name, 'n': n, 'v': v}
+        elif r < 0.7:
+            k = rng.choice(['hex', 'oct', 'bin', 'bytes', 'bits', 'bits'])
+            nd = rng.choice([1, 2, 3, 6])
+            spec = {'kind': k, 'digits': [rng.randrange({'hex': 16, 'oct': 8, 'bin': 2, 'bytes': 256, 'bits': 2}[k]) for _ in range(nd)], 'asstr': rng.random() < 0.6}
+        else:
+            spec = {'name': rng.choice(['float', 'floatle', 'floatne', 'floatbe']), 'n': rng.choice([16, 32, 64]), 'f': rng.choice([1.0, -2.5, 0.1, 0.0]).hex()}
+        yield dict(spec, op='adopt', cls=rng.choice(MUTABLE), edit=rng.choice(EDITS), with_len=rng.random() < 0.5)
+
 def kind(c): return c['op'] + ':' + c.get('name', c.get('kind', ''))
 
 def create(C, name, n, value, route):
@@ -156,6 +173,42 @@ def run_impl(c):
             s = create(C, c['name'], c['n'], x, c['cr'])
             return [s.bin, cval(read(s, c['name'], c['n'], c['rr']))]
         return attempt(f)
+    if op == 'adopt':
+        from bitstring import Bits
+        def f():
+            if 'kind' in c:
+                k, ds = c['kind'], c['digits']
+                name = k
+                if k == 'hex': val, n = ''.join('0123456789abcdef'[d] for d in ds), 4 * len(ds)
+                elif k == 'oct': val, n = ''.join(str(d) for d in ds), 3 * len(ds)
+                elif k == 'bin': val, n = ''.join(str(d) for d in ds), len(ds)
+                elif k == 'bytes': val, n = bytes(ds), len(ds)
+                else:
+                    b = ''.join(str(d) for d in ds); n = len(ds)
+                    val = ('0b' + b) if c['asstr'] else Bits(bin=b)          # a.bits = <token string> goes through the string cache
+            elif 'f' in c: name, n, val = c['name'], c['n'], float.fromhex(c['f'])
+            else: name, n, val = c['name'], c['n'], c['v']
+            a = C()
+            setattr(a, f'{name}{n}' if c['with_len'] and name not in ('bits',) else name, val) if not (name in INTS + ['float', 'floatle', 'floatne', 'floatbe'] and not c['with_len']) else setattr(a, f'{name}{n}', val)
+            got0 = a.bin
+            e = c['edit']
+            if e == 'invert': a.invert()
+            elif e == 'append': a.append('0b1')
+            elif e == 'del': del a[0:2]
+            elif e == 'set': a.set(True); a.set(0, 0)
+            elif e == 'reverse': a.reverse(); a.invert(0)
+            elif e == 'ilshift': a <<= 1
+            elif e == 'setitem': a[0] = not a[0]
+            elif e == 'clear': a.clear()
+            after = []
+            for route in CREATE_ROUTES:
+                if route == 'token' and isinstance(val, (bytes, Bits)): continue
+                try: after.append([route, create(Bits, name, n, val, route).bin])
+                except Exception as ex: after.append([route, 'RAISES ' + type(ex).__name__])
+            if isinstance(val, str) and name == 'bits': after.append(['auto', Bits(val).bin])
+            if isinstance(val, Bits): after.append(['operand', val.bin])
+            return [got0, after]
+        return attempt(f)
     if op == 'pattern':
         def f():
             s = C(bin=c['bits'])
@@ -204,6 +257,18 @@ def oracle(c, obs):
         if x == x and obs[1][0] != bits: return f"{c['name']}:{c['n']} = {c['f']} via {c['cr']}: bits {obs[1][0]} differ from struct's {bits}"
         exp = ['f', back.hex() if back == back else 'nan']
         if obs[1][1] != exp: return f"{c['name']}:{c['n']} = {c['f']} read via {c['rr']} gave {obs[1][1]}, struct gives {exp}"
+        return None
+    if op == 'adopt':
+        if obs[0] != 'ok': return f"adopt {c} raised {obs}"
+        if 'kind' in c:
+            w = {'hex': 4, 'oct': 3, 'bin': 1, 'bytes': 8, 'bits': 1}[c['kind']]
+            exp = ''.join(format(d, f'0{w}b') for d in c['digits'])
+        elif 'f' in c: exp = ref_float_bits(c['name'], c['n'], float.fromhex(c['f']))[0]
+        else: exp = ref_int_bits(c['name'], c['n'], c['v'])
+        got0, after = obs[1]
+        if got0 != exp: return f"property assignment {c} gave {got0}, canonical encoding {exp}"
+        for route, b in after:
+            if b != exp: return f"after a {c['cls']} was given the value through its property and edited in place ({c['edit']}), creation route {route} gives {b} for {c}; canonical encoding {exp}"
         return None
     if op == 'pattern':
         if obs[0] != 'ok': return f"pattern {c} raised {obs}"
